@@ -53,9 +53,11 @@ def run(c):
         if o["ev"] == "case":
             path = save_replay("C16", "%s-l%d" % (c.seed, v["line"]), {"property": "C16", "driver": "pceq", "signature": s, "seed": c.seed, "cases": [o["case"]]})
         else:
-            prev = [x["case"] for x in lines[:v["line"]] if x["ev"] == "case"][-1:]
+            # queries are compared when a state is first built (and after some state-changing cases)
+            st0 = o["state"].split("+")[0]
+            prev = [x["case"] for x in lines[:v["line"]] if x["ev"] == "case" and x["case"]["state"] == st0][-1:] if "+" in o["state"] else []
             path = save_replay("C16", "%s-l%d" % (c.seed, v["line"]), {"property": "C16", "driver": "pceq", "signature": s, "seed": c.seed,
-                               "cases": prev or [{"state": o["state"].split("+")[0], "m": "setWithdrawAddress", "val": "V1", "amt": "0", "height": "ok"}]})
+                               "cases": prev or [{"state": st0, "m": "setWithdrawAddress", "val": "V1", "amt": "0", "height": "ok", "to": "T"}]})
         c.replays[s] = path
         if s not in known and s not in replay(path, quiet=True):
             raise Infra("signature %s did not reproduce from %s" % (s, path))
